@@ -111,6 +111,13 @@ impl Builtins {
         Ok(contents.into())
     }
 
+    fn get_file_as_bytes(&self, path: &str) -> Result<Vec<u8>, Error> {
+        let mut f = File::open(path)?;
+        let mut contents = Vec::new();
+        f.read_to_end(&mut contents)?;
+        Ok(contents)
+    }
+
     fn import<O, E>(
         &mut self,
         stack: &mut Vec<(Rc<Value>, Position)>,
@@ -220,15 +227,14 @@ impl Builtins {
             stack.push((
                 Rc::new(match env.borrow().importer_registry.get_importer(&typ) {
                     Some(importer) => {
-                        let contents = self.get_file_as_string(&path)?;
-                        if contents.is_empty() {
-                            eprintln!("including an empty file. Use NULL as the result");
-                            P(Empty)
-                        } else {
-                            match importer.import(contents.as_bytes()) {
-                                Ok(v) => v.into(),
-                                Err(e) => return Err(Error::new(format!("{}", e).into(), pos)),
-                            }
+                        // The importers take bytes, a file to base64 encode
+                        // need not be text. An empty file is up to the
+                        // importer too: it is the empty string in base64, an
+                        // empty table in toml and malformed json.
+                        let contents = self.get_file_as_bytes(&path)?;
+                        match importer.import(&contents) {
+                            Ok(v) => v.into(),
+                            Err(e) => return Err(Error::new(format!("{}", e).into(), pos)),
                         }
                     }
                     None => {
